@@ -3,7 +3,7 @@ import collections
 import math
 
 PROP = "C13"
-LEAN_MODS = ["Cte.Props.C13", "Cte.Props.C13Poly", "Cte.Props.C13Reveal"]
+LEAN_MODS = ["Cte.Props.C13", "Cte.Props.C13Iter", "Cte.Props.C13Poly", "Cte.Props.C13Reveal"]
 HARNESS = "c13"
 N = {"quick": 150, "thorough": 3000}
 CORRESPONDENCES = ["BVH answer per ray on sets of boxes (sizes 0..200, duplicates, coinciding centres, flat boxes; leaf sizes 1,2,8,30)",
@@ -18,7 +18,10 @@ RULE = ("obstacle sets of 0..200 boxes (random, duplicated, identical, flat, sam
 ASSUMPTIONS = ["hit/miss is compared only when the exact crossing point is >= 1 mm from the outline, the plane parameter >= 1 mm and "
                "the ray is not within the code's parallel threshold (the property's own exclusion)",
                "box tests are compared only on rays for which exact and f32 exhaustive answers agree (rays grazing a box face)"]
-TRUSTED = ["modelled: Cte/Model/Bvh.lean (repaired algorithm, recursion instead of the explicit stack), Box.lean (exact slab test), Ray.lean",
+TRUSTED = ["modelled: Cte/Model/BvhIter.lean (the code's node list, id counter, the two id-keyed maps and the explicit-stack walk; proved equal to the "
+           "recursive Cte/Model/Bvh.lean in Props/C13Iter), Box.lean (exact slab test), Ray.lean; the driver runs the code-shaped path",
+           "the tree shape (pre-order: inner node / leaf size) of model and implementation is compared and reported as a statistic only: the partition "
+           "uses an f32 mean in the code and an exact one in the model, so near-ties may legitimately fall on the other side",
            "the f32 slab test is tied to the exact one by comparison on the generated rays, not by proof"]
 _stats = collections.Counter()
 
@@ -32,6 +35,15 @@ def compare(case, out):
         imp = case["impl"]
         if out["bvh"] != out["exhaustive"]:
             res.append((CORRESPONDENCES[0], "model: accelerated answer differs from exhaustive (contradicts bvh_eq_exhaustive)"))
+        if "panic" in out["bvh"]:
+            res.append((CORRESPONDENCES[0], "model: the code-shaped build reached an unwrap on None (contradicts reconstruct_generate)"))
+        if imp["outcome"] == "ok" and "shape" in imp:
+            ms = [(-1 if x < 0 else x) for x in out.get("shape", [])]
+            _stats["tree_shapes_compared"] += 1
+            if ms == imp["shape"]:
+                _stats["tree_shapes_equal"] += 1
+            if len(imp["shape"]) > 1:
+                _stats["trees_with_inner_nodes"] += 1
         if imp["outcome"] == "ok":
             for i, (ib, ie, me) in enumerate(zip(imp["bvh"], imp["exhaustive"], out["exhaustive"])):
                 _stats["box_rays"] += 1
